@@ -40,10 +40,19 @@ class Spy:
             spy.log.append((this, roots))
             return spy.orig(this, root, data, ident)
         g.FortranGraph.__init__ = init
+        self.orig_reg = g.GraphData.register
+        self.registered = []        # objects handed to GraphData.register from outside (hist is None), in order
+
+        def reg(this, obj, hist=None):
+            if hist is None:
+                spy.registered.append(obj)
+            return spy.orig_reg(this, obj, hist)
+        g.GraphData.register = reg
         return self
 
     def __exit__(self, *a):
         self.g.FortranGraph.__init__ = self.orig
+        self.g.GraphData.register = self.orig_reg
 
 
 def build_graphs(project, show_proc_parent=False, coloured=False):
@@ -55,7 +64,15 @@ def build_graphs(project, show_proc_parent=False, coloured=False):
             for item in getattr(project, name):
                 gm.register(item)
         gm.graph_all()
-    return gm, spy.log
+    return gm, SpyLog(spy.log, spy.registered)
+
+
+class SpyLog(list):
+    """the graphs in construction order; .registered = what was handed to GraphData.register"""
+
+    def __init__(self, log, registered):
+        super().__init__(log)
+        self.registered = list(registered)
 
 
 # ------------------------------------------------------------------ DOT source
@@ -214,10 +231,12 @@ class World:
             e["proctype"] = getattr(obj, "proctype", "")
             e["modprocs"] = [self.node(m.procedure, "KProc") for m in getattr(obj, "modprocs", []) if m.procedure]
             if isinstance(obj, sf.FortranModuleProcedureInterface) and \
-                    isinstance(obj.procedure.module, (str, sf.FortranProcedure)):
+                    isinstance(obj.procedure.module,
+                               (str, sf.FortranProcedure, sf.FortranModuleProcedureImplementation)):
                 e["modimpl"] = self.node(obj.procedure.module, "KProc")
         if hasattr(obj, "visible"):
             e["visible"] = bool(obj.visible)
+        e["graph"] = bool(getattr(getattr(obj, "meta", None), "graph", True))
         if kind == "KFile":
             deps = []
             for lst in ("modules", "submodules", "functions", "subroutines", "programs", "blockdata"):
@@ -292,7 +311,7 @@ class World:
                 f"{nats(e.get('uses', []))} {coq_opt(e.get('anc'), str)} {comps} {nats(e.get('calls', []))} "
                 f"{nats(e.get('bindings', []))} {coq_opt(e.get('visible'), coq_bool)} {coq_bool(e.get('bound', False))} "
                 f"{coq_bool(e.get('deferred', False))} {coq_str(e.get('proctype', ''))} {nats(e.get('modprocs', []))} "
-                f"{coq_opt(e.get('modimpl'), str)} {nats(e.get('deps', []))})")
+                f"{coq_opt(e.get('modimpl'), str)} {nats(e.get('deps', []))} {coq_bool(e.get('graph', True))})")
         return coq_list(out)
 
 
@@ -325,7 +344,9 @@ def graph_record(world, gobj, roots):
 
     def nid(ident):
         return world.by_ident[(grp, ident)]
-    lims = [(int(r.meta.graph_maxdepth), int(r.meta.graph_maxnodes)) for r in roots if hasattr(r, "meta")]
+    wide = cls in ("GModule", "GType", "GCall", "GFile")
+    lims = [(int(r.meta.graph_maxdepth), int(r.meta.graph_maxnodes)) for r in roots
+            if hasattr(r, "meta") and not (wide and not r.meta.graph)]
     return dict(
         cls=cls, roots=[world.node(r, "KMod") for r in roots], lims=lims,
         nodes=sorted(nid(n) for n in nodes), labels=sorted((nid(n), lab) for n, lab in nodes.items()),
@@ -359,11 +380,13 @@ def collect(project, log):
     """world + graph records of one GraphManager run (log from Spy)"""
     world = World()
     allv, regs = registered(project)
-    for it in allv:
+    regs = list(getattr(log, "registered", regs))
+    for it in allv + regs:
         world.node(it, "KMod")
     for _, roots in log:
         for r in roots:
             world.node(r, "KMod")
     world.close()
+    world.regids = [world.node(r, "KMod") for r in regs]
     recs = [graph_record(world, gobj, roots) for gobj, roots in log]
     return world, regs, recs
